@@ -33,7 +33,8 @@ PROP = {'gen': [],
                'every cell on an arbitrary previous screen (C01_forced, C01_clear_then_frame); the render loop of run_render with its '
                'output queue and frame dropping, end to end: whatever the tty takes, whatever frames_pending() answers and whichever prefix '
                'of the queue survives a drop, every delivered frame is displayed right (C01_render_loop; TERMINAL_FRAMES_DROP '
-               'regenerated from the source), except in the known class DroppedImageErase; show is characterised cell by cell '
+               'regenerated from the source), except in the known class DroppedImageErase; a frame that repeats the previous one issues no command, '
+               'for every surface (C01_idle_frame); show is characterised cell by cell '
                '(C01_show_is_denotation). Surfaces in which an image shares a cell with another image or with a wide character are '
                'the recorded known classes OverlapImages / OverlapWideImage (one _refuted witness each). The model is tied to the '
                'code by a differential run on command lists, and the property predicate is evaluated on the implementation\'s own '
@@ -42,7 +43,7 @@ PROP = {'gen': [],
                'EraseChars leaves ferase(pen) = background only, clipped, cursor unmoved; CUP row clamp; images do not alter cells; an '
                'overwritten wide half leaves an Orphan cell that no surface denotes); hand-written model Render/Frame.v validated by '
                'the correspondence run; oracle_ok (space is one column wide, a default blank is an untouched cell, erasable faces erase '
-               'like spaces); six fix: commits in the crate (marks reset after use, wide-character extent, Option-tracked face/cursor, '
+               'like spaces); nine fix: commits in the crate (incl. three follow-ups after an audit) (marks reset after use, wide-character extent, Option-tracked face/cursor, '
                'clear() keeps the drawn front buffer, no EraseChars for faces with underline/strike/reverse, hidden wide characters '
                'do not own the column behind them). Render/Loop.v takes from Props/C16.v (C16_frames, C16_frames_flush_delimited, '
                'C16_render_loop_schema) the interface of the output queue: chunks delimited by flush/poll, delivered in order and '
